@@ -88,9 +88,37 @@ func runC12(cfg config) {
 	for i := 0; i < nExtra; i++ {
 		types = append(types, all[(int(cfg.seed)*7+i*23)%len(all)])
 	}
+	// nested messages that share their short name with a nested message of another shape elsewhere in the schema (one a
+	// code wrapper, one not: the element SubstanceSpecification.code and the code wrappers named CodeType): the
+	// resources that own them are always walked, and generated until an instance shows up
+	collide := c12ShortNameCollisions()
+	var owners []string
+	for o := range collide {
+		owners = append(owners, o)
+	}
+	sort.Strings(owners)
+	for _, o := range owners {
+		have := false
+		for _, tn := range types {
+			have = have || tn == o
+		}
+		if !have {
+			types = append(types, o)
+		}
+	}
 	seenKind := map[string]int{}
 	for _, tn := range types {
 		res := g.resource(tn, 4)
+		for try := 0; try < 12 && len(collide[tn]) > 0; try++ {
+			found := false
+			walkMessages(res, func(m proto.Message, _ proto.Message, _ protoreflect.FieldDescriptor, _ int) {
+				found = found || collide[tn][string(m.ProtoReflect().Descriptor().FullName())]
+			})
+			if found {
+				break
+			}
+			res = g.resource(tn, 4)
+		}
 		vals = append(vals, val{env: res, decl: declOf(res), desc: tn})
 		walkMessages(res, func(m proto.Message, parent proto.Message, fd protoreflect.FieldDescriptor, idx int) {
 			md := m.ProtoReflect().Descriptor()
@@ -220,4 +248,54 @@ func runC12(cfg config) {
 		}
 	}
 	sink.finish("every element (and choice wrapper) of generated resources (quick: 10 fixed + 6 seeded resource types; thorough: all 146), at most two values per distinct message type, plus System literals; each tested with `is` and `as` against its own type chain, the base types, and a seeded sample of all R4 resource, datatype and primitive names (both cases), System names and unknown names, unqualified and qualified with FHIR / System / an unknown namespace; declared types come from google/fhir's descriptor annotations", false)
+}
+
+// c12ShortNameCollisions: owner resource type -> full names of its nested messages whose short name is also the short
+// name of a nested message of the other kind (one a code wrapper, one not) of some resource.
+func c12ShortNameCollisions() map[string]map[string]bool {
+	type shape struct {
+		owner, full string
+		hasValue    bool // (is a code wrapper)
+	}
+	byShort := map[string][]shape{}
+	var walk func(owner string, md protoreflect.MessageDescriptor)
+	walk = func(owner string, md protoreflect.MessageDescriptor) {
+		nested := md.Messages()
+		for i := 0; i < nested.Len(); i++ {
+			n := nested.Get(i)
+			byShort[string(n.Name())] = append(byShort[string(n.Name())], shape{owner, string(n.FullName()), isCodeWrapper(n)})
+			walk(owner, n)
+		}
+	}
+	for _, tn := range resourceNames() {
+		walk(tn, (&genState{r: &rng{s: 1}}).resource(tn, 0).ProtoReflect().Descriptor())
+	}
+	out := map[string]map[string]bool{}
+	for _, shapes := range byShort {
+		with, without := false, false
+		for _, sh := range shapes {
+			with = with || sh.hasValue
+			without = without || !sh.hasValue
+		}
+		if !(with && without) {
+			continue
+		}
+		// every message that is not a code wrapper, and the least deeply nested one that is
+		best := ""
+		for _, sh := range shapes {
+			if sh.hasValue && (best == "" || strings.Count(sh.full, ".") < strings.Count(best, ".")) {
+				best = sh.full
+			}
+		}
+		for _, sh := range shapes {
+			if sh.hasValue && sh.full != best {
+				continue
+			}
+			if out[sh.owner] == nil {
+				out[sh.owner] = map[string]bool{}
+			}
+			out[sh.owner][sh.full] = true
+		}
+	}
+	return out
 }
